@@ -115,6 +115,7 @@ struct PolState {
     int epoch = 0;
     int handler_mode = HM_THROW;
     HeldVp held[MAXVP];
+    std::size_t last_allocs = 0; // allocations of the last completed update
     std::uint64_t checksum = 0; // published data at this policy's last event
     bool checksum_valid = false;
 };
@@ -1342,9 +1343,27 @@ struct Exec {
         }
     }
 
-    void do_update(const Event& e) {
-        if (e.pol < 0 || e.pol >= (int)ps.size())
+    void do_update(const Event& e0) {
+        if (e0.pol < 0 || e0.pol >= (int)ps.size())
             return invalid("update: bad policy");
+        Event relative;
+        if (e0.alloc_fail_from_end >= 0) {
+            // late abort: count the allocations of a fault-free update, then
+            // make the same update fail close to its end
+            Event counting = e0;
+            counting.alloc_fail_from_end = -1;
+            counting.alloc_fail_at = -1;
+            counting.hash_budget = 0;
+            counting.fork = 0;
+            do_update(counting);
+            if (stop || !ps[e0.pol].clean)
+                return;
+            relative = e0;
+            relative.alloc_fail_from_end = -1;
+            relative.alloc_fail_at = std::max<long long>(
+                0, (long long)ps[e0.pol].last_allocs - 1 - e0.alloc_fail_from_end);
+        }
+        const Event& e = e0.alloc_fail_from_end >= 0 ? relative : e0;
         auto& s = ps[e.pol];
         auto& ops = *s.ops;
         if (!ids_unique())
@@ -1472,7 +1491,9 @@ struct Exec {
             d.set("err_alt", uo.err.alt);
             if (uo.err.alt == EA_BAD_ALLOC && e.alloc_fail_at >= 0) {
                 ++res.st.alloc_failures;
-                ++res.st.faults["alloc_failure"];
+                ++res.st.faults[e0.alloc_fail_from_end >= 0
+                                    ? "alloc_failure_late"
+                                    : "alloc_failure"];
             } else if (uo.err.alt == EA_HASH_SEARCH && ops.caps.hash) {
                 ++res.st.hash_failures;
                 if (e.hash_budget)
@@ -1508,6 +1529,7 @@ struct Exec {
             return;
         }
         ++res.st.updates_completed;
+        s.last_allocs = uo.allocs;
         log(ls.str());
         for (auto& h : s.held)
             if (h.live && ops.caps.indirect)
